@@ -29,7 +29,8 @@ func Tokenize(b []byte) ([]PTok, error) {
 		case isWS(c):
 			i++
 		case c == '%':
-			for i < len(b) && b[i] != '\n' && b[i] != '\r' {
+			// a comment ends at the next newline or form feed (PLRM 3.2.2)
+			for i < len(b) && b[i] != '\n' && b[i] != '\r' && b[i] != '\f' {
 				i++
 			}
 		case c == '(':
